@@ -10,6 +10,7 @@
    group that did not take part in the match. *)
 From Coq Require Import List ZArith Bool String.
 From JV Require Import Base.Bytes Base.F64 Model.Value Model.Builtins Model.LibCore Model.Eval.
+From JV Require Import Model.LibString.
 Import ListNotations.
 Local Open Scope Z_scope.
 Local Open Scope list_scope.
@@ -95,3 +96,32 @@ Fixpoint replace_fwd (s : string) (pos : Z) (l : list ((Z * Z) * string)) : stri
 (** ** integers that survive the trip through float64 (start/end travel as JSON numbers in the
     match object).  Holds for every n < 2^53 (Proofs/C17Proofs.v int_exact_small). *)
 Definition int_exact (n : Z) : Prop := forall z, 0 <= z <= n -> go_int (f_of_Z z) = z.
+
+(** $split's limit: a limit below the number of parts keeps that many parts *)
+Definition split_limit {A} (lim : option Z) (parts : list A) : list A :=
+  match lim with
+  | Some z => if z <? Z.of_nat (List.length parts) then firstn (Z.to_nat z) parts else parts
+  | None => parts
+  end.
+
+(** ** the replacement template: which group does a digit run after a dollar sign name?
+    [ds] is the run of digit runes after the dollar sign; its first [k] digits, read as a decimal
+    number N (in Go's 64-bit int, LibString.num_prefix), name group N (1-based) of [gs] when
+    0 <= N - 1 < length gs *)
+Definition group_index (k : nat) (ds : list Z) : Z :=
+  wrap_int (num_prefix (firstn k ds) - 1).
+Definition names_group (gs : list string) (ds : list Z) (k : nat) : Prop :=
+  0 <= group_index k ds < Z.of_nat (List.length gs).
+
+(** the LONGEST prefix (k digits, k from [n] downwards) that names a group, and that group's text *)
+Fixpoint longest_group (n : nat) (ds : list Z) (gs : list string) : option (string * nat) :=
+  match n with
+  | O => None
+  | S n' =>
+      if (0 <=? group_index n ds) && (group_index n ds <? Z.of_nat (List.length gs))
+      then Some (nth (Z.to_nat (group_index n ds)) gs EmptyString, n)
+      else longest_group n' ds gs
+  end.
+
+(** decimal value of a digit run (no wrap-around) *)
+Definition dec_value (ds : list Z) : Z := fold_left (fun acc r => acc * 10 + (r - 48)) ds 0.
